@@ -11,6 +11,7 @@ import (
 
 	"github.com/smart-core-os/sc-api/go/traits"
 	"github.com/smart-core-os/sc-api/go/types"
+	"github.com/smart-core-os/sc-golang/pkg/masks"
 	"github.com/smart-core-os/sc-golang/pkg/resource"
 )
 
@@ -44,7 +45,7 @@ func (m *ModelServer) ListConsumables(_ context.Context, request *traits.ListCon
 	}
 	pageSize := capPageSize(int(request.GetPageSize()))
 
-	sortedItems := m.model.ListConsumables(resource.WithReadMask(request.ReadMask))
+	sortedItems := m.model.ListConsumables()
 	nextIndex := 0
 	if lastKey != "" {
 		nextIndex = sort.Search(len(sortedItems), func(i int) bool {
@@ -71,6 +72,12 @@ func (m *ModelServer) ListConsumables(_ context.Context, request *traits.ListCon
 		return nil, err
 	}
 	result.Consumables = sortedItems[nextIndex:upperBound]
+
+	// apply the read mask to the page only: paging (and the next page token) needs the unmasked keys
+	mask := masks.NewResponseFilter(masks.WithFieldMask(request.ReadMask))
+	for i, item := range result.Consumables {
+		result.Consumables[i] = mask.FilterClone(item).(*traits.Consumable)
+	}
 	return result, nil
 }
 
@@ -125,7 +132,7 @@ func (m *ModelServer) ListInventory(_ context.Context, request *traits.ListInven
 	}
 	pageSize := capPageSize(int(request.GetPageSize()))
 
-	sortedItems := m.model.ListInventory(resource.WithReadMask(request.ReadMask))
+	sortedItems := m.model.ListInventory()
 	nextIndex := 0
 	if lastKey != "" {
 		nextIndex = sort.Search(len(sortedItems), func(i int) bool {
@@ -152,6 +159,12 @@ func (m *ModelServer) ListInventory(_ context.Context, request *traits.ListInven
 		return nil, err
 	}
 	result.Inventory = sortedItems[nextIndex:upperBound]
+
+	// apply the read mask to the page only: paging (and the next page token) needs the unmasked keys
+	mask := masks.NewResponseFilter(masks.WithFieldMask(request.ReadMask))
+	for i, item := range result.Inventory {
+		result.Inventory[i] = mask.FilterClone(item).(*traits.Consumable_Stock)
+	}
 	return result, nil
 }
 
